@@ -87,12 +87,19 @@ func buildStream(byName map[string]cat.Envelope, names []string, s cat.Ser) (*st
 		sc.data = append(sc.data, best...)
 		sc.ends = append(sc.ends, len(sc.data))
 	}
-	// reference: the stream delivered all at once
-	rd := &stream{data: sc.data}
+	// reference: every envelope decoded alone from exactly its own frame. (The stream delivered
+	// all at once is one of the deliveries the statement names - it is judged like every other
+	// cut set, not used as the reference: a decoder that reads ahead loses the following
+	// envelopes precisely in that delivery.)
 	for i := range names {
+		start := 0
+		if i > 0 {
+			start = sc.ends[i-1]
+		}
+		rd := &stream{data: sc.data[start:sc.ends[i]]}
 		env, err, _ := decodeEnv(s, rd)
-		if err != nil || rd.pos != sc.ends[i] {
-			return nil, fmt.Errorf("unchunked decode of envelope %d failed (C14's business): err=%v consumed=%d frame end=%d", i, err, rd.pos, sc.ends[i])
+		if err != nil || rd.pos != len(rd.data) {
+			return nil, fmt.Errorf("decoding envelope %d alone from its own frame failed (C14's business): err=%v consumed=%d frame length=%d", i, err, rd.pos, len(rd.data))
 		}
 		sc.ref = append(sc.ref, env)
 	}
